@@ -443,7 +443,11 @@ impl TypeSpace {
             .iter()
             .map(|schema| match get_object(schema) {
                 Some((_, validation))
-                    if validation.properties.len() == validation.required.len() =>
+                    if validation.properties.len() == validation.required.len()
+                        && validation
+                            .required
+                            .iter()
+                            .all(|name| validation.properties.contains_key(name)) =>
                 {
                     let constants = validation
                         .properties
